@@ -19,26 +19,65 @@
    processSignal activation = a non-deferred frame of the core stack is in progress), PExit (processSignal returned,
    signal(sig,sigHandler) not yet executed).  The theorems quantify over schedules that interleave arrivals with ALL of
    these steps; the trace producer [orun] executes the PEnter/PExit steps without a scheduling point (the harness has no
-   yield point inside sigHandler).  Signal numbers are case ids: [registered] = what getSignals() of the harness returns. *)
+   yield point inside sigHandler).  Signal numbers are case ids: [registered] = what getSignals() of the harness returns.
+   The state also carries which object instance_s points to (see [rst] below): sigHandler delivers to that object. *)
 Require Import V.Lib.Base V.C18.Model.
 Local Open Scope Z_scope.
 
 Definition registered : list Z := [1; 2; 3].
 Definition mem (x : Z) (l : list Z) : bool := existsb (Z.eqb x) l.
 Definition is_reg (x : Z) : bool := mem x registered.
+(* SIGALRM: not in getSignals(); its handler is installed by setAlarm(sec > 0), UNCONDITIONALLY (POSIX branch):
+     int  setAlarm(unsigned sec) { if (sec) { signal(SIGALRM, &sigHandler); } alarm(sec); return 1; }
+     void killAlarm()            { if (timeout_ > 0) { setAlarm(0); } }            (shutdown(bool); cancels the timer only)
+     main(): ... install loop ...; if (timeout_) { setAlarm(timeout_); }            (--time-limit=n)
+   An arrival of alarm_sig is a SIGALRM that reaches the process (the timer expiring, or a kill). *)
+Definition alarm_sig : Z := 4.
+Definition is_sig (x : Z) : bool := is_reg x || (x =? alarm_sig).
+Definition all_sigs : list Z := registered ++ [alarm_sig].
 
 Inductive disp := DDefault | DHandler | DIgnore.
+Definition upd (f : Z -> disp) (x : Z) (v : disp) : Z -> disp := fun y => if y =? x then v else f y.
 Inductive phase := PEnter | PRun | PExit.
 Record sframe := mkS { s_sig : Z; s_ph : phase }.
+
+(* ---- which application object the static instance_s points to (Application::initInstance / resetInstance) ----
+     main():            initInstance( *this)  ->  instance_s = this            (the constructor does NOT register)
+     ~Application():    resetInstance( *this) ->  if (instance_s == this) instance_s = 0
+     sigHandler:        getInstance()->processSignal(sig)
+   Objects are numbered: 0 = the application object whose main() runs, 1, 2, ... = other Application objects that the
+   main flow constructs / destroys meanwhile (they never call main(), so they never register), or a copy of *this that is
+   made and dropped at once (Application is copyable: implicit copy constructor; the copy does not register either). *)
+Inductive oop := OCore | ONew | ODel | OCopy | OSetAlarm | OKillAlarm.   (* shape of the main flow: next core op / construct / destroy / copy-and-drop / setAlarm(n>0) / setAlarm(0) *)
+Inductive fop := FCore (o : op) | FNew | FDel | FCopy | FSetAlarm | FKillAlarm.
+Definition core_of (f : list fop) : list op :=
+  flat_map (fun x => match x with FCore o => [o] | _ => [] end) f.
+Definition shape_of (f : list fop) : list oop :=
+  map (fun x => match x with FCore _ => OCore | FNew => ONew | FDel => ODel | FCopy => OCopy
+                      | FSetAlarm => OSetAlarm | FKillAlarm => OKillAlarm end) f.
+
+Record rst := mkR {
+  inst  : option nat;    (* instance_s *)
+  live  : list nat;      (* other application objects alive, most recent first *)
+  nxt   : nat;           (* next fresh object number *)
+  oflow : list oop;      (* what the main flow still has to do (OCore = the next element of the core's ops) *)
+  fault : bool;          (* sigHandler called processSignal through something else than the running object *)
+  alarm_set : bool;      (* ghost: setAlarm(sec > 0) has been executed in this process *)
+  rearm : list bool }.   (* per callback invocation (in order): the callback calls setAlarm(n > 0) when it is entered *)
+
+Definition reg0 : rst := mkR None [] 1%nat [] false false [].
+
+(* resetInstance(b) *)
+Definition reset_inst (b : nat) (i : option nat) : option nat :=
+  match i with Some x => if (x =? b)%nat then None else Some x | None => None end.
 
 Record ost := mkO {
   core : st;             (* the application object + its processSignal activations (Model.v) *)
   dsp  : Z -> disp;      (* disposition of every signal number *)
   hs   : list sframe;    (* sigHandler activations, top first *)
   acc  : list Z;         (* ghost: OS-level arrivals that started sigHandler (this run) *)
-  drp  : list Z }.       (* ghost: OS-level arrivals the OS discarded (this run) *)
-
-Definition upd (f : Z -> disp) (x : Z) (v : disp) : Z -> disp := fun y => if y =? x then v else f y.
+  drp  : list Z;         (* ghost: OS-level arrivals the OS discarded (this run) *)
+  reg  : rst }.
 
 (* main(): if (signal(sig, &sigHandler) == SIG_IGN) signal(sig, SIG_IGN); *)
 Definition install (d : disp) : disp := match d with DIgnore => DIgnore | _ => DHandler end.
@@ -46,50 +85,126 @@ Definition install (d : disp) : disp := match d with DIgnore => DIgnore | _ => D
 (* dispositions before the first main(): the environment had the numbers in [pre] ignored *)
 Definition boot (pre : Z -> bool) : Z -> disp := fun x => if pre x then DIgnore else DDefault.
 
-(* start of a run of main() with main flow o and callback answers a, given the dispositions found *)
-Definition os_main (d : Z -> disp) (o : list op) (a : list bool) : ost :=
-  mkO (init o a) (fun x => if is_reg x then install (d x) else d x) [] [] [].
+(* start of a run of main() of object 0 with main flow f and callback answers a, given the dispositions and the other
+   objects found: initInstance( *this); blocked_ = pending_ = 0; install the handlers *)
+(* tl = a time limit was given (timeout_ <> 0): main() calls setAlarm(timeout_) after the install loop;
+   ra = which callback invocations re-arm the alarm (the rest of a callback's behaviour is its answer in a) *)
+Definition os_main (tl : bool) (d : Z -> disp) (r : rst) (f : list fop) (a : list bool) (ra : list bool) : ost :=
+  mkO (init (core_of f) a)
+      (fun x => if is_reg x then install (d x) else if tl && (x =? alarm_sig) then DHandler else d x) [] [] []
+      (mkR (Some O) (live r) (nxt r) (shape_of f) (fault r) (tl || alarm_set r) ra).
+
+(* the main flow is at an operation boundary *)
+Definition at_op (c : st) : bool := match stack c, mpc_ c with [], MOp => true | _, _ => false end.
+
+(* the next operation of the main flow, if it is about another application object *)
+Definition objstep (r : rst) : option rst :=
+  match oflow r with
+  | ONew :: f  => Some (mkR (inst r) (nxt r :: live r) (S (nxt r)) f (fault r) (alarm_set r) (rearm r))   (* new App(): not registered *)
+  | ODel :: f  => Some (match live r with
+                        | b :: l => mkR (reset_inst b (inst r)) l (nxt r) f (fault r) (alarm_set r) (rearm r)   (* delete: ~Application *)
+                        | [] => mkR (inst r) [] (nxt r) f (fault r) (alarm_set r) (rearm r)
+                        end)
+  | OCopy :: f => Some (mkR (reset_inst (nxt r) (inst r)) (live r) (S (nxt r)) f (fault r) (alarm_set r) (rearm r))   (* { App copy( *this); } *)
+  | OSetAlarm :: f => Some (mkR (inst r) (live r) (nxt r) f (fault r) true (rearm r))       (* setAlarm(n), n > 0 *)
+  | OKillAlarm :: f => Some (mkR (inst r) (live r) (nxt r) f (fault r) (alarm_set r) (rearm r))   (* setAlarm(0): alarm(0) only *)
+  | _ => None
+  end.
+(* ... and what it does to the dispositions: setAlarm(n > 0) installs the handler for SIGALRM whatever it finds *)
+Definition objdsp (r : rst) (d : Z -> disp) : Z -> disp :=
+  match oflow r with OSetAlarm :: _ => upd d alarm_sig DHandler | _ => d end.
+Definition pop_flow (r : rst) : rst := mkR (inst r) (live r) (nxt r) (tl (oflow r)) (fault r) (alarm_set r) (rearm r).
+Definition set_fault (r : rst) : rst := mkR (inst r) (live r) (nxt r) (oflow r) true (alarm_set r) (rearm r).
+
+(* the step of the core that follows is the entry into / the return from the callback *)
+Definition cb_enter (c : st) : bool :=
+  match stack c with f :: _ => match h_pc f with HCbEnter => true | _ => false end | [] => false end.
+Definition cb_exit (c : st) : bool :=
+  match stack c with f :: _ => match h_pc f with HCbExit => true | _ => false end | [] => false end.
+(* a re-arming callback calls setAlarm(n > 0) as its first action *)
+Definition rearm_now (c : st) (r : rst) : bool := cb_enter c && hd false (rearm r).
+Definition cb_dsp (c : st) (r : rst) (d : Z -> disp) : Z -> disp :=
+  if rearm_now c r then upd d alarm_sig DHandler else d.
+Definition cb_reg (c : st) (r : rst) : rst :=
+  mkR (inst r) (live r) (nxt r) (oflow r) (fault r) (rearm_now c r || alarm_set r)
+      (if cb_exit c then tl (rearm r) else rearm r).
 
 Definition ostep (d : Z) (s : ost) : ost :=
   if d =? 0 then
     match hs s with
-    | [] => mkO (step true 0 (core s)) (dsp s) [] (acc s) (drp s)     (* main flow / deferred activation *)
+    | [] =>    (* main flow / deferred activation *)
+        if at_op (core s) then
+          match objstep (reg s) with
+          | Some r' => mkO (core s) (objdsp (reg s) (dsp s)) [] (acc s) (drp s) r'
+          | None => mkO (step true 0 (core s)) (dsp s) [] (acc s) (drp s) (pop_flow (reg s))
+          end
+        else mkO (step true 0 (core s)) (cb_dsp (core s) (reg s) (dsp s)) [] (acc s) (drp s) (cb_reg (core s) (reg s))
     | e :: r =>
         match s_ph e with
-        | PEnter =>    (* signal(sig, SIG_IGN); processSignal(sig) is called *)
-            mkO (arrive (s_sig e) (core s)) (upd (dsp s) (s_sig e) DIgnore) (mkS (s_sig e) PRun :: r) (acc s) (drp s)
+        | PEnter =>    (* signal(sig, SIG_IGN); getInstance()->processSignal(sig) is called *)
+            match inst (reg s) with
+            | Some O => mkO (arrive (s_sig e) (core s)) (upd (dsp s) (s_sig e) DIgnore) (mkS (s_sig e) PRun :: r)
+                            (acc s) (drp s) (reg s)
+            | _ => mkO (core s) (dsp s) r (acc s) (drp s) (set_fault (reg s))    (* null / foreign object: the process is lost *)
+            end
         | PRun =>      (* one atomic step of its processSignal activation; if that returns: on to the destructor *)
             let c' := step true 0 (core s) in
-            mkO c' (dsp s)
+            mkO c' (cb_dsp (core s) (reg s) (dsp s))
                 (if (length (stack c') <? length (stack (core s)))%nat then mkS (s_sig e) PExit :: r else hs s)
-                (acc s) (drp s)
+                (acc s) (drp s) (cb_reg (core s) (reg s))
         | PExit =>     (* ~ScopedSig: signal(sig, sigHandler); sigHandler returns *)
-            mkO (core s) (upd (dsp s) (s_sig e) DHandler) r (acc s) (drp s)
+            mkO (core s) (upd (dsp s) (s_sig e) DHandler) r (acc s) (drp s) (reg s)
         end
     end
-  else if is_reg d then    (* OS-level arrival of signal d *)
+  else if is_sig d then    (* OS-level arrival of signal d *)
     match dsp s d with
-    | DHandler => mkO (core s) (dsp s) (mkS d PEnter :: hs s) (acc s ++ [d]) (drp s)
-    | DIgnore  => mkO (core s) (dsp s) (hs s) (acc s) (drp s ++ [d])
+    | DHandler => mkO (core s) (dsp s) (mkS d PEnter :: hs s) (acc s ++ [d]) (drp s) (reg s)
+    | DIgnore  => mkO (core s) (dsp s) (hs s) (acc s) (drp s ++ [d]) (reg s)
     | DDefault => s        (* would terminate the process; never the case once main() has installed (c18_os_dispositions) *)
     end
   else s.                  (* not a signal of this application *)
 
+(* scheduling-point code: 11 / 12 / 13 = the main flow is about to construct / destroy another object / copy-and-drop *this *)
+Definition ocode (s : ost) : Z :=
+  match hs s with
+  | [] => if at_op (core s) then
+            match oflow (reg s) with ONew :: _ => 11 | ODel :: _ => 12 | OCopy :: _ => 13
+                                   | OSetAlarm :: _ => 14 | OKillAlarm :: _ => 15 | _ => code (core s) end
+          else code (core s)
+  | _ => code (core s)
+  end.
+
 (* a new run of main() on the same object; meaningful when the previous run is over *)
-Definition idle (s : ost) : bool := match hs s with [] => code (core s) =? 0 | _ => false end.
+Definition idle (s : ost) : bool := match hs s with [] => ocode s =? 0 | _ => false end.
+
+(* ~Application of object 0 (after its last run) *)
+Definition os_destroy (s : ost) : ost :=
+  mkO (core s) (dsp s) (hs s) (acc s) (drp s)
+      (mkR (reset_inst O (inst (reg s))) (live (reg s)) (nxt (reg s)) (oflow (reg s)) (fault (reg s))
+           (alarm_set (reg s)) (rearm (reg s))).
 
 (* ---- observation ---- *)
 Definition dcode (d : disp) : Z := match d with DDefault => 0 | DHandler => 1 | DIgnore => 2 end.
-Definition disp_obs (tag : Z) (s : ost) : list Z := tag :: map (fun x => dcode (dsp s x)) registered.
+(* getInstance(): 0 = null, 1 = the running object, 2 = another object *)
+Definition icode (i : option nat) : Z := match i with None => 0 | Some O => 1 | Some _ => 2 end.
+Definition disp_obs (tag : Z) (s : ost) : list Z :=
+  tag :: map (fun x => dcode (dsp s x)) all_sigs ++ [icode (inst (reg s))].
 
 (* what the OS does with an arrival of d: nothing to note when the handler starts, 31 = discarded (ignored),
-   33 = default action (not raised by the harness), 32 = not one of the application's signals *)
+   33 = default action (not raised by the harness), 32 = not one of the application's signals,
+   34 = the handler is installed but getInstance() is not the running object (not raised by the harness: it would crash) *)
 Definition arrival_note (d : Z) (s : ost) : list Z :=
-  if is_reg d then match dsp s d with DHandler => [] | DIgnore => [31; d] | DDefault => [33; d] end else [32; d].
+  if is_sig d then
+    match dsp s d with
+    | DHandler => match inst (reg s) with Some O => [] | _ => [34; d] end
+    | DIgnore => [31; d]
+    | DDefault => [33; d]
+    end
+  else [32; d].
 
 Definition oemit (d : Z) (s : ost) : list Z :=
   let e := emit d (core s) in
-  firstn 3 e ++ disp_obs 40 s ++ skipn 3 e ++ (if d =? 0 then [] else arrival_note d s).
+  [ocode s; blocked (core s); pending (core s)] ++ disp_obs 40 s ++ skipn 3 e ++ (if d =? 0 then [] else arrival_note d s).
 
 (* the two steps of sigHandler itself have no scheduling point in the harness *)
 Definition settle (s : ost) : ost :=
@@ -103,38 +218,60 @@ Fixpoint orun (fuel : nat) (ds : list Z) (s : ost) : list Z * ost :=
   | O => ([-1], s)
   | S n =>
       let d := match ds with [] => 0 | d :: _ => d end in
-      if (d =? 0) && (code (core s) =? 0) then (oemit 0 s, s)
+      if (d =? 0) && (ocode s =? 0) then (oemit 0 s, s)
       else let '(o, s') := orun n (tl ds) (settle (ostep d s)) in (oemit d s ++ o, s')
   end.
 
 (* ---- case decoding:  -m mask  nops op...  nans ans...  [n1]  decision...
         m = 1: the schedule runs inside the first main(); m = 2: inside a second main() after an empty first run;
         m = 3: the first main() runs the flow with the first n1 decisions, a second main() runs the same flow with the rest.
-        mask: bit i-1 set = registered number i was ignored by the environment before the first main().          ---- *)
-Definition pre_of (mask : Z) : Z -> bool := fun x => is_reg x && Z.testbit mask (x - 1).
+        mask: bit i-1 set = number i (1..3 registered, 4 = SIGALRM) was ignored by the environment before the first main();
+              bit 4 (16) = main() is given a time limit (it calls setAlarm itself).
+        ans: 0 stop, 2 = the callback re-arms the alarm (setAlarm(n > 0)) and continues, 3 = re-arms and stops, else continue.
+        op: 1..4 as in Model.v; 5 = construct another application object, 6 = destroy the most recent other object,
+            7 = copy *this and drop the copy, 8 = setAlarm(n > 0), 9 = setAlarm(0).  After the last run object 0 is destroyed: record 42 = getInstance().   ---- *)
+Definition pre_of (mask : Z) : Z -> bool := fun x => is_sig x && Z.testbit mask (x - 1).
 
-Definition ofuel_of (c : list Z) : nat := (8 * length c + 16)%nat.
+Fixpoint decode_fops (l : list Z) : list fop :=
+  match l with
+  | [] => []
+  | x :: r => if (x =? 1) || (x =? 4) then FCore Block :: decode_fops r
+              else if x =? 2 then FCore (Unblock false) :: decode_fops r
+              else if x =? 3 then FCore (Unblock true) :: decode_fops r
+              else if x =? 5 then FNew :: decode_fops r
+              else if x =? 6 then FDel :: decode_fops r
+              else if x =? 7 then FCopy :: decode_fops r
+              else if x =? 8 then FSetAlarm :: decode_fops r
+              else if x =? 9 then FKillAlarm :: decode_fops r
+              else decode_fops r
+  end.
+
+Definition ofuel_of (c : list Z) : nat := (16 * length c + 16)%nat.
+
+Definition end_obs (s : ost) : list Z := disp_obs 41 s ++ [42; icode (inst (reg (os_destroy s)))].
 
 Definition orun_with (c : list Z) : list Z :=
   match c with
   | m :: mask :: n :: r =>
-      let o := decode_ops (firstn (Z.to_nat n) r) in
+      let f := decode_fops (firstn (Z.to_nat n) r) in
       let r1 := skipn (Z.to_nat n) r in
       let k := Z.to_nat (hd 0 r1) in
-      let a := map (fun x => negb (x =? 0)) (firstn k (tl r1)) in
+      let a := map (fun x => negb ((x =? 0) || (x =? 3))) (firstn k (tl r1)) in    (* 0 and 3 answer stop *)
+      let ra := map (fun x => (x =? 2) || (x =? 3)) (firstn k (tl r1)) in          (* 2 and 3 re-arm the alarm first *)
       let r2 := skipn k (tl r1) in
       let fuel := ofuel_of c in
-      let s0 := os_main (boot (pre_of mask)) in
+      let tlim := Z.testbit mask 4 in
+      let s0 := os_main tlim (boot (pre_of mask)) reg0 in
       if m =? -1 then
-        let '(t, s) := orun fuel r2 (s0 o a) in t ++ disp_obs 41 s
+        let '(t, s) := orun fuel r2 (s0 f a ra) in t ++ end_obs s
       else if m =? -2 then
-        let '(t, s) := orun fuel r2 (os_main (dsp (s0 [] [])) o a) in t ++ disp_obs 41 s
+        let '(t, s) := orun fuel r2 (os_main tlim (dsp (s0 [] [] [])) (reg (s0 [] [] [])) f a ra) in t ++ end_obs s
       else if m =? -3 then
         let n1 := Z.to_nat (hd 0 r2) in
-        let '(t1, s1) := orun fuel (firstn n1 (tl r2)) (s0 o a) in
+        let '(t1, s1) := orun fuel (firstn n1 (tl r2)) (s0 f a ra) in
         if idle s1 then
-          let '(t2, s2) := orun fuel (skipn n1 (tl r2)) (os_main (dsp s1) o (answers (core s1))) in
-          t1 ++ disp_obs 41 s1 ++ t2 ++ disp_obs 41 s2
+          let '(t2, s2) := orun fuel (skipn n1 (tl r2)) (os_main tlim (dsp s1) (reg s1) f (answers (core s1)) (rearm (reg s1))) in
+          t1 ++ disp_obs 41 s1 ++ t2 ++ end_obs s2
         else t1 ++ [-2]
       else [-3]
   | _ => [-3]
